@@ -22,6 +22,15 @@ from rsa.terms import NotEvaluable, const_value
 
 ONE = {(): Fraction(1)}
 
+# argument lists of opaque calls are hash-consed: a nested call carries a small number instead of the (arbitrarily deep)
+# normal form of its arguments, so comparing and sorting monomials stays cheap.  Equal argument normal forms get equal
+# numbers within one process, which is all that equality of normal forms needs.
+_INTERN: dict = {}
+
+
+def _intern(x):
+    return _INTERN.setdefault(x, len(_INTERN))
+
 
 def p_add(a, b, sign=1):
     out = dict(a)
@@ -75,11 +84,11 @@ def ratfun(e, table=None, subst=None):
             nm = ast.unparse(n.func)
             nm = nm.split(".")[-1] if nm.split(".")[0] in ("np", "numpy", "math") else nm
             nm = _ALIASES.get(nm, nm)
-            return ("call", nm, tuple(rat_key(go(a)) for a in n.args), tuple((k.arg, rat_key(go(k.value))) for k in n.keywords))
+            return ("call", nm, _intern((tuple(rat_key(go(a)) for a in n.args), tuple((k.arg, rat_key(go(k.value))) for k in n.keywords))))
         if isinstance(n, ast.Subscript) and isinstance(n.slice, ast.Slice):
-            return ("slice", rat_key(go(n.value)) if not isinstance(n.value, (ast.Name, ast.Attribute)) else ast.unparse(n.value), ast.unparse(n.slice))
+            return ("slice", _intern((rat_key(go(n.value)) if not isinstance(n.value, (ast.Name, ast.Attribute)) else ast.unparse(n.value), ast.unparse(n.slice))))
         if isinstance(n, ast.BinOp) and isinstance(n.op, ast.Pow):
-            return ("pow", rat_key(go(n.left)), rat_key(go(n.right)))
+            return ("pow", _intern((rat_key(go(n.left)), rat_key(go(n.right)))))
         return ("atom", ast.unparse(n))
 
     def go(n):
@@ -218,3 +227,17 @@ def p_derivative(poly, rules):
             rest = tuple(m[:i] + m[i + 1 :])
             out = p_add(out, p_mul({rest: c}, rules[a]))
     return out
+
+
+def eval_steps(steps, table=None, env=None):
+    """Evaluate the bindings of one path (`terms.path_steps`) in the rational-function domain: one normal form per
+    local, each computed once (a later binding refers to the stored value, not to re-normalised text).  Returns
+    (env: name -> ratfun, conds: [(test expr, polarity, env snapshot)])."""
+    env = dict(env or {})
+    conds = []
+    for st in steps:
+        if st[0] == "bind":
+            env[st[1]] = ratfun(st[2], table, env)
+        else:
+            conds.append((st[1], st[2], dict(env)))
+    return env, conds
